@@ -39,6 +39,20 @@ SEL_F8 = "labels_provider_skips_preprocess"
 SEL_F10 = "last_half_cell_band"
 SEL_F11 = "resize_registration_offset"
 SEL_F7 = "gt_centroid_crops_before_resize"
+SEL_FZ = "zero_threshold_invisible_keypoint"
+# peak_threshold of a case (key "thr", a string; absent = 0.2): float value and ln (None: threshold 0 has no logarithm,
+# model flag si_thr0 / td_thr0).  0.0 is the constructor default of SingleInstanceInferenceModel / CentroidCrop /
+# FindInstancePeaks; the predictor classes default to 0.2.
+THRS = {"0.2": (0.2, LN_THR), "0.1": (0.1, F(-2302585, 1000000)), "0.0": (0.0, None)}
+STATE = {"fixed_fz": False}             # does the tree mask an all-zero channel at threshold 0 (F02z repaired)?
+
+
+def thr_float(c):
+    return THRS[c.get("thr", "0.2")][0]
+
+
+def ln_thr(c):
+    return THRS[c.get("thr", "0.2")][1]
 
 
 # ------------------------------------------------------------------ geometry mirror (generator only)
@@ -543,17 +557,20 @@ def coz(v):
 
 def si_cfg_term(c, fixed):
     return ("{| si_H := %s; si_W := %s; si_mh := %s; si_mw := %s; si_scale := %s; si_ms := %s; si_os := %s; "
-            "si_sigma := %s; si_lthr := %s; si_fixed_F8 := %s |}" % (
+            "si_sigma := %s; si_lthr := %s; si_fixed_F8 := %s; si_thr0 := %s; si_fixed_Fz := %s |}" % (
                 core.cz(c["H"]), core.cz(c["W"]), coz(c["mh"]), coz(c["mw"]), core.cq(c["scale"]),
-                core.cz(c["ms"]), core.cz(c["os"]), core.cq(SIGMA), core.cq(LN_THR), core.cbool(fixed)))
+                core.cz(c["ms"]), core.cz(c["os"]), core.cq(SIGMA), core.cq(ln_thr(c) or F(0)), core.cbool(fixed),
+                core.cbool(ln_thr(c) is None), core.cbool(STATE["fixed_fz"])))
 
 
 def td_cfg_term(c):
     return ("{| td_H := %s; td_W := %s; td_mh := %s; td_mw := %s; td_sc := %s; td_si := %s; td_msc := %s; "
-            "td_msi := %s; td_osc := %s; td_osi := %s; td_ch := %s; td_cw := %s; td_sigma := %s; td_lthr := %s |}" % (
+            "td_msi := %s; td_osc := %s; td_osi := %s; td_ch := %s; td_cw := %s; td_sigma := %s; td_lthr := %s; "
+            "td_thr0 := %s; td_fixed_Fz := %s |}" % (
                 core.cz(c["H"]), core.cz(c["W"]), coz(c["mh"]), coz(c["mw"]), core.cq(c["scale_c"]),
                 core.cq(c["scale_i"]), core.cz(c["ms_c"]), core.cz(c["ms_i"]), core.cz(c["os_c"]),
-                core.cz(c["os_i"]), core.cz(crop_hw(c)[0]), core.cz(crop_hw(c)[1]), core.cq(SIGMA), core.cq(LN_THR)))
+                core.cz(c["os_i"]), core.cz(crop_hw(c)[0]), core.cz(crop_hw(c)[1]), core.cq(SIGMA),
+                core.cq(ln_thr(c) or F(0)), core.cbool(ln_thr(c) is None), core.cbool(STATE["fixed_fz"])))
 
 
 def batches_of(c, prov):
@@ -600,17 +617,17 @@ def build_scene(c):
 def build_predictor(c, mods, sc):
     if c["kind"] == "single":
         cfg = dict(os=c["os"], scale=float(c["scale"]), max_stride=c["ms"], max_h=c["mh"], max_w=c["mw"],
-                   batch=c["batch"], refinement=c["refinement"])
+                   batch=c["batch"], refinement=c["refinement"], peak_threshold=thr_float(c))
         pred, stub = S.build_single_predictor(mods, sc, cfg)
         return pred, {"single": stub}
     if c["kind"] == "topdown_gt":
         cfg = dict(os_i=c["os_i"], scale_i=float(c["scale_i"]), ms_i=c["ms_i"], max_h=c["mh"], max_w=c["mw"],
-                   crop=c["crop"], batch=c["batch"], refinement=c["refinement"])
+                   crop=c["crop"], batch=c["batch"], refinement=c["refinement"], peak_threshold=thr_float(c))
         pred, si_ = S.build_topdown_gt_predictor(mods, sc, cfg)
         return pred, {"centroid": type("E", (), {"log": []})(), "instance": si_}
     cfg = dict(os_c=c["os_c"], os_i=c["os_i"], scale_c=float(c["scale_c"]), scale_i=float(c["scale_i"]),
                ms_c=c["ms_c"], ms_i=c["ms_i"], max_h=c["mh"], max_w=c["mw"], crop=c["crop"], batch=c["batch"],
-               refinement=c["refinement"], max_instances=None)
+               refinement=c["refinement"], max_instances=None, peak_threshold=thr_float(c))
     pred, sc_, si_ = S.build_topdown_predictor(mods, sc, cfg)
     return pred, {"centroid": sc_, "instance": si_}
 
@@ -666,7 +683,9 @@ def oracle_point(pred_xy, val, true_p, half, reg, ctx):
     px, py = float(pred_xy[0]), float(pred_xy[1])
     if true_p is None:
         if not (math.isnan(px) and math.isnan(py)):
-            return (f"invisible keypoint reported at ({px}, {py})", None)
+            # selector of F02z: peak_threshold = 0 (not positive), no refinement, the tree does not mask all-zero channels
+            return (f"invisible keypoint reported at ({px}, {py})" + (" with peak_threshold 0" if ctx.get("zero_thr") else ""),
+                    SEL_FZ if ctx.get("zero_thr") else None)
         if val != 0:
             return (f"invisible keypoint has value {val}, not 0", None)
         return None
@@ -739,6 +758,8 @@ def oracle_case(c, res, provider, fixed_f8, fixed_f7=False):
     f8 = single and provider == "LabelsReader" and c["scale"] != 1 and not fixed_f8
     f7 = c["kind"] == "topdown_gt" and c["scale_i"] != 1 and not fixed_f7
     logs = res["logs"]["single" if single else "instance"]
+    # F02z selector (mirrors thr_masks_zero of Lemmas.v, negated): threshold not positive, refinement None, tree not repaired
+    zero_thr = thr_float(c) <= 0 and c["refinement"] is None and not STATE["fixed_fz"]
     for fid, animals in enumerate(c["frames"]):
         eff = eff_of(c, fid)                      # the frame's own size-matching scale
         half = os_ / (2 * s * eff)                # half an output-stride cell in ORIGINAL pixels of this frame
@@ -761,7 +782,7 @@ def oracle_case(c, res, provider, fixed_f8, fixed_f7=False):
                     band = in_last_band(jx, jy, rec["shape"], os_)
                 bad = oracle_point(pts[k], vals[k], p, (half, half), reg,
                                    {"override": SEL_F8 if f8 else None, "band": band,
-                                    "nan_selector": SEL_F8 if f8 else None})
+                                    "nan_selector": SEL_F8 if f8 else None, "zero_thr": zero_thr})
                 if bad:
                     fails.append((f"frame {fid} node {k}: {bad[0]}", bad[1], fid))
         else:
@@ -786,7 +807,7 @@ def oracle_case(c, res, provider, fixed_f8, fixed_f7=False):
                         band = in_last_band(jx - rec["tl"][0], jy - rec["tl"][1], rec["shape"], os_)
                     bad = oracle_point(pts[k], vals[k], p, (half, half), reg,
                                        {"band": band, "override": SEL_F7 if f7 else None,
-                                        "nan_selector": SEL_F7 if f7 else None})
+                                        "nan_selector": SEL_F7 if f7 else None, "zero_thr": zero_thr})
                     if bad:
                         fails.append((f"frame {fid} animal {j} node {k}: {bad[0]}", bad[1], fid))
     return fails
@@ -816,8 +837,10 @@ def q2f(j):
     return None if j is None else j[0] / j[1]
 
 
-def cmp_points(model_pts, pts, vals, refinement, half, margins, where, out, stats):
-    """model_pts: [[ [x,y]|null, arg|null ], ...] ; pts/vals: implementation."""
+def cmp_points(model_pts, pts, vals, refinement, half, margins, where, out, stats, lthr=LN_THR):
+    """model_pts: [[ [x,y]|null, arg|null ], ...] ; pts/vals: implementation.  arg = null: value 0 (with a point:
+    the all-zero channel of an invisible keypoint at peak_threshold 0, cell (0,0) decoded).  lthr: ln of the case's
+    threshold (None: threshold 0)."""
     if len(model_pts) != len(pts):
         out.append(f"{where}: {len(pts)} nodes vs model {len(model_pts)}")
         return
@@ -825,8 +848,18 @@ def cmp_points(model_pts, pts, vals, refinement, half, margins, where, out, stat
         if margins and q2f(margins[k]) < 1 / 64:
             stats["skipped_low_margin"] += 1
             continue
-        if marg is not None and abs(q2f(marg) - float(LN_THR)) < 0.03:
+        if marg is not None and lthr is not None and abs(q2f(marg) - float(lthr)) < 0.03:
             stats["skipped_near_threshold"] += 1
+            continue
+        if mp is not None and marg is None:
+            stats["zero_channel_points"] = stats.get("zero_channel_points", 0) + 1
+            if refinement is None:
+                if not (close(p[0], q2f(mp[0])) and close(p[1], q2f(mp[1])) and v == 0):
+                    out.append(f"{where} node {k}: impl {p.tolist()} value {v}, model all-zero channel at "
+                               f"({q2f(mp[0])}, {q2f(mp[1])}) value 0")
+            elif not (math.isnan(p[0]) and math.isnan(p[1]) and v == 0):
+                # integral refinement of an all-zero patch is 0/0: NaN, value 0 (C06: selector F9, peak value <= 0)
+                out.append(f"{where} node {k}: impl {p.tolist()} value {v}, all-zero channel with integral refinement: NaN/0")
             continue
         if mp is None:
             if not (math.isnan(p[0]) and math.isnan(p[1]) and v == 0):
@@ -892,7 +925,15 @@ def f7_witness():
             "frames": [[{"kps": kps, "cent": (F(33), F(27))}]]}
 
 
-WITNESSES = {"F7_gt_centroids_scale_half.json": f7_witness, "F8_labels_scale_half.json": f8_witness, "F10_last_band.json": f10_witness,
+def fz_witness():
+    # peak_threshold 0 (constructor default of the inference modules), no refinement: the invisible second node comes
+    # back at (0, 0) with value 0 instead of NaN
+    return {"kind": "single", "idx": -5, "H": 64, "W": 64, "mh": None, "mw": None, "variant": "none",
+            "scale": F(1), "ms": 1, "os": 2, "refinement": None, "batch": 1, "n_nodes": 2, "band": False,
+            "n_videos": 1, "thr": "0.0", "frames": [[{"kps": [(F(40), F(24)), None], "cent": (F(32), F(32))}]]}
+
+
+WITNESSES = {"F02z_zero_threshold_invisible.json": fz_witness, "F7_gt_centroids_scale_half.json": f7_witness, "F8_labels_scale_half.json": f8_witness, "F10_last_band.json": f10_witness,
              "F11_resize_half.json": f11_witness, "F61_gt_match_eff_half.json": CO.f61_witness}
 
 
@@ -1037,7 +1078,7 @@ def evaluate(run, cases, mods, fixed_f8, fixed_f7=False):
                     continue
                 pts, vals, score = preds[0]
                 s_dec = float(c["scale"]) * eff
-                cmp_points(mpts, pts, vals, c["refinement"], c["os"] / (2 * s_dec), margins, where, diffs, stats)
+                cmp_points(mpts, pts, vals, c["refinement"], c["os"] / (2 * s_dec), margins, where, diffs, stats, ln_thr(c))
                 stats["points_compared"] += len(mpts)
                 rec = next((x for x in res["logs"]["single"] if x["fid"] == fid), None)
                 if rec is not None and rec.get("ax"):
@@ -1064,7 +1105,7 @@ def evaluate(run, cases, mods, fixed_f8, fixed_f7=False):
                         if abs(score - math.exp(q2f(carg))) > VTOL and c["refinement"] is None:
                             diffs.append(f"{w2}: centroid value {score} model {math.exp(q2f(carg))}")
                         if c["refinement"] is None:
-                            cmp_points(mpts, pts, vals, None, c["os_i"] / (2 * k), margins, w2, diffs, stats)
+                            cmp_points(mpts, pts, vals, None, c["os_i"] / (2 * k), margins, w2, diffs, stats, ln_thr(c))
                             stats["points_compared"] += len(mpts)
                     # centroid-stage network input and content map
                     for rec in res["logs"]["centroid"]:
@@ -1104,7 +1145,7 @@ def evaluate(run, cases, mods, fixed_f8, fixed_f7=False):
                 k = float(c["scale_i"]) * eff
                 recs = [x for x in res["logs"]["instance"] if x["fid"] == fid]
                 for n, ((pts, vals, score), (tl, mpts, margins)) in enumerate(zip(preds, minsts)):
-                    cmp_points(mpts, pts, vals, None, c["os_i"] / (2 * k), margins, f"{where} instance {n}", diffs, stats)
+                    cmp_points(mpts, pts, vals, None, c["os_i"] / (2 * k), margins, f"{where} instance {n}", diffs, stats, ln_thr(c))
                     stats["points_compared"] += len(mpts)
                     if n < len(recs) and "tl" in recs[n]:
                         if abs(recs[n]["tl"][0] - q2f(tl[0])) > 2e-3 or abs(recs[n]["tl"][1] - q2f(tl[1])) > 2e-3:
@@ -1120,7 +1161,7 @@ def evaluate(run, cases, mods, fixed_f8, fixed_f7=False):
                 if fid < len(flat):
                     pts, vals, score = flat[fid]
                     cmp_points(mpts, pts, vals, "integral", c["os_i"] / (2 * k), margins,
-                               f"{prov} crop {fid} (frame {rec['fid']})", diffs, stats)
+                               f"{prov} crop {fid} (frame {rec['fid']})", diffs, stats, ln_thr(c))
                     stats["points_compared"] += len(mpts)
         # ---- oracle
         for prov in providers_of(c):
@@ -1163,6 +1204,20 @@ def detect_fixed_f7(mods):
     return bool(abs(pts[0][0] - 30.0) <= 2.5 and abs(pts[0][1] - 24.0) <= 2.5)
 
 
+def detect_fixed_fz(mods):
+    """Does the tree report NaN for an all-zero channel at peak_threshold 0 (F02z repaired)?"""
+    res = run_impl(fz_witness(), mods, "VideoReader")
+    pts = res["per_frame"][0][0][0]
+    return bool(math.isnan(pts[1][0]) and math.isnan(pts[1][1]))
+
+
+def assign_thresholds(rng, cases):
+    """peak_threshold of the generated ramp cases: 0.2 (predictor default), 0.1, 0.0 (module default)."""
+    for c in cases:
+        if c["kind"] in ("single", "topdown", "topdown_gt") and "thr" not in c and c["idx"] >= 0:
+            c["thr"] = rng.choice(["0.2", "0.2", "0.1", "0.0", "0.0"])
+
+
 def check_f7(run, mods):
     """F7 (latent): _predict_generator with preprocess=True and instances_key=True
     calls apply_resizer without the scale.  Unreachable through make_pipeline;
@@ -1192,6 +1247,9 @@ def check(run: core.Run) -> int:
     thorough = run.tier == "thorough"
     fixed_f8, _ = detect_fixed_f8(mods)
     fixed_f7 = detect_fixed_f7(mods)
+    STATE["fixed_fz"] = detect_fixed_fz(mods)
+    run.notes.append(f"F02z state of the tree: an invisible keypoint (all-zero channel) at peak_threshold 0 without refinement is "
+                     f"{'NaN (repaired)' if STATE['fixed_fz'] else 'reported at cell (0, 0) with value 0 (open)'}")
     run.notes.append(f"F7 state of the tree: ground-truth-centroid crops are cut {'after' if fixed_f7 else 'BEFORE'} "
                      f"the pre-crop resize ({'repaired' if fixed_f7 else 'as pinned'})")
     run.notes.append(f"F8 state of the tree: LabelsReader preprocess flag = {fixed_f8} "
@@ -1221,6 +1279,8 @@ def check(run: core.Run) -> int:
     n_co = 220 if thorough else 24
     for i in range(n_co):
         co_cases.append(CO.gen_centroid_only(run.rng, len(cases) + len(co_cases), mixed=i >= n_co - n_mix["co"]))
+    import random
+    assign_thresholds(random.Random(run.rng.getrandbits(64)), cases)
     disagreements, stats, _ = evaluate(run, cases, mods, fixed_f8, fixed_f7)
     co_dis, co_stats = CO.evaluate(run, co_cases, mods, fixed_f61)
     stats.update(co_stats)
@@ -1245,7 +1305,7 @@ def check(run: core.Run) -> int:
         for k in ("kind", "variant", "refinement", "band", "is_rgb", "channels"):
             key = f"{k}={c.get(k)}"
             dist[key] = dist.get(key, 0) + 1
-        for k in ("scale", "scale_c", "scale_i", "os", "os_c", "os_i", "ms", "ms_c", "ms_i", "crop", "batch"):
+        for k in ("scale", "scale_c", "scale_i", "os", "os_c", "os_i", "ms", "ms_c", "ms_i", "crop", "batch", "thr"):
             if k in c:
                 key = f"{k}={c[k]}"
                 dist[key] = dist.get(key, 0) + 1
@@ -1296,6 +1356,7 @@ def replay(run: core.Run, path: str) -> int:
         return GR.replay(run, c, mods, detect_fixed_f8(mods)[0])
     fixed_f8, _ = detect_fixed_f8(mods)
     fixed_f7 = detect_fixed_f7(mods)
+    STATE["fixed_fz"] = detect_fixed_fz(mods)
     out = {}
     bad = False
     res = {}
